@@ -71,7 +71,10 @@ theorem castOut_chunk (app : App) (hall : app.all homog = true) (fw : Bool) (cnt
     · unfold finishBytes; rfl
   · simp only
     split
-    · rfl
+    · split
+      · trivial
+      · rename_i s'' o hd
+        rcases defaultHandler_cases _ _ _ _ _ hd with ⟨_, rfl⟩ | ⟨j, _, rfl⟩ <;> rfl
     · rename_i o heh; exact errHandler_all homog app hall _ _ heh
     · exact Out.all_body homog _ _ _ ho
     · trivial
@@ -99,7 +102,11 @@ theorem step_chunk (app : App) (hall : app.all homog = true) (fw : Bool) (c : Cf
     unfold step
     simp only
     split
-    · exact castOut_chunk app hall fw _ _ _ rfl
+    · split
+      · trivial
+      · rename_i s'' o hd
+        apply castOut_chunk app hall fw
+        rcases defaultHandler_cases _ _ _ _ _ hd with ⟨_, rfl⟩ | ⟨j, _, rfl⟩ <;> rfl
     · exact castOut_chunk app hall fw _ s out h
 
 /-- `_cast` returns an iterable of `bytes` for every program of the domain -/
@@ -168,7 +175,11 @@ theorem castOut_cl (app : App) (fw : Bool) (cnt : Nat) (s : Slots) (out : Out) :
     · exact finishEmpty_cl _
     · exact finishBytes_cl _ _
   · simp only
-    split <;> trivial
+    split
+    · split <;> trivial
+    · trivial
+    · trivial
+    · trivial
   · trivial
   · split
     · trivial
@@ -184,7 +195,11 @@ theorem step_cl (app : App) (fw : Bool) (c : Cfg) (h : ClInv c) : ClInv (step ap
   | run cnt s out =>
     unfold step
     simp only
-    split <;> exact castOut_cl _ _ _ _ _
+    split
+    · split
+      · trivial
+      · exact castOut_cl _ _ _ _ _
+    · exact castOut_cl _ _ _ _ _
 
 theorem cast_cl (app : App) (fw : Bool) (s : Slots) (out : Out) :
     ∀ items c n, (cast app fw s out).2 = .body items c (some n) →
